@@ -134,3 +134,42 @@ func VV(m MaybeFloat) Float {
 //@   props C19
 //@   nopanic
 //@   inline
+
+// bounded stand-in (C04, "inherit for inherited properties"): the set of inherited properties is a table that
+// the cascade contracts read as a constant. vInheritedProperties compares it, for every known property, with
+// the "Inherited: yes" rows of the specifications (CSS 2.1 Appendix F, css-fonts-4, css-text-3/4, css-lists-3,
+// css-images-3/4, css-tables-3, css-break-3; `lang` and `link` are the internal properties that carry the
+// language and the link target down the tree).
+func vInheritedProperties() (n int, fails []string) {
+	inherited := map[string]bool{}
+	for _, name := range []string{
+		"border-collapse", "border-spacing", "caption-side", "color", "direction", "empty-cells",
+		"font-family", "font-feature-settings", "font-kerning", "font-language-override", "font-size", "font-style", "font-stretch",
+		"font-variant", "font-variant-alternates", "font-variant-caps", "font-variant-east-asian", "font-variant-ligatures",
+		"font-variant-numeric", "font-variant-position", "font-variation-settings", "font-weight",
+		"hyphens", "hyphenate-character", "hyphenate-limit-chars", "hyphenate-limit-zone",
+		"image-rendering", "image-resolution", "lang", "letter-spacing", "line-height", "link",
+		"list-style-image", "list-style-position", "list-style-type", "orphans", "overflow-wrap", "quotes", "tab-size",
+		"text-align-all", "text-align-last", "text-indent", "text-transform", "visibility", "white-space", "widows",
+		"word-spacing", "word-break",
+	} {
+		inherited[name] = true
+		if _, known := PropsFromNames[name]; !known {
+			fails = append(fails, "unknown property name in the oracle: "+name)
+		}
+	}
+	for name, prop := range PropsFromNames {
+		n++
+		if got := Inherited.Has(prop); got != inherited[name] && len(fails) < 8 {
+			if got {
+				fails = append(fails, name+" is in the Inherited set but is not an inherited property")
+			} else {
+				fails = append(fails, name+" is an inherited property but is missing from the Inherited set")
+			}
+		}
+	}
+	return n, fails
+}
+
+//@ bounded vInheritedProperties the Inherited set against the "Inherited: yes" rows of the CSS specifications, for every known property
+//@   props C04
